@@ -951,8 +951,11 @@ impl Model {
                     } else if status == st::OK && (silent || rv == Some(*initial)) {
                         cands.push(Next::Created);
                     }
-                    if cas != 0 && *exp != 0xffff_ffff && (status == st::NOT_FOUND || status == st::EXISTS) {
-                        cands.push(Next::Gone); // L-a
+                    // (no L-a here: C07 says without exception that on an absent key incr/decr create the item
+                    // unless the expiration is 0xffffffff; only an item that may still be present - limbo -
+                    // can answer a CAS mismatch)
+                    if cas != 0 && *exp != 0xffff_ffff && item.is_some() && vis == Vis::Limbo && (status == st::NOT_FOUND || status == st::EXISTS) {
+                        cands.push(Next::Gone);
                     }
                 }
                 if let Some(it) = &item {
